@@ -453,8 +453,7 @@ pub fn classify(src: &[u8], o: &Opts, clause: &str) -> String {
         if cand != src && !fails(&cand, o, clause) { return format!("{}:unicode-whitespace", clause); }
     }
     let valid = if has_syntax_errors(src) { "invalid-source" } else { "valid-source" };
-    if clause == "idempotence" && valid == "valid-source" { classify_idempotence(src, o) }
-    else if clause == "idempotence" { "idempotence:invalid-source".to_string() }
+    if clause == "idempotence" { classify_idempotence(src, o) }
     else if clause == "tokens" {
         let ob = observe_with(src, o, false);
         let (a, b) = (&ob.in_sig, &ob.out1_sig);
@@ -524,51 +523,145 @@ fn describe(kind: SyntaxKind, text: &[u8]) -> String {
     }
 }
 
-/// Where and how the second pass differs from the first: the first gap
-/// between significant tokens whose whitespace changes, described by the two
-/// tokens before it, the change in the number of line breaks, and the token
-/// after it.
+/// Where and how the second pass differs from the first. The description is
+/// meant to pin down the INPUT CLASS of a failure, so that a new failure is
+/// not taken for a recorded one:
+///  * a change of the whitespace next to a comment (taken as the cause even when
+///    an earlier gap changes too): what changes (line break added / removed,
+///    spaces added / removed), on which side of the comment, the kind of comment,
+///    where the comment stands on its line in the first output (first on the
+///    line or after code; followed by code / by a comment / last on the line) and
+///    what is on the other side of the gap;
+///  * a change of the text of a comment: whether the line that changes is blank;
+///    else where the comment stands;
+///  * a change next to (or inside) the text of a syntax-error node;
+///  * anything else: the coarse kinds of the tokens around the first changed gap.
 pub fn diff_fingerprint(p1: &[u8], p2: &[u8]) -> String {
     let (a, b) = (sig_spans(p1), sig_spans(p2));
     if a.len() != b.len() { return "token-count-changes".into(); }
-    let gap = |src: &[u8], spans: &[(SyntaxKind, std::ops::Range<usize>)], i: usize| -> Vec<u8> {
+    let gap_of = |src: &[u8], spans: &[(SyntaxKind, std::ops::Range<usize>)], i: usize| -> Vec<u8> {
         let start = if i == 0 { 0 } else { spans[i - 1].1.end };
         let end = if i == spans.len() { src.len() } else { spans[i].1.start };
         src[start..end].to_vec()
     };
-    // A change next to a comment is taken as the cause even when an earlier gap
-    // changes too (e.g. the padding of an alignment block shifts because a line
-    // break was added after a comment further down).
-    let mut first_other: Option<String> = None;
-    for i in 0..=a.len() {
-        let (g1, g2) = (gap(p1, &a, i), gap(p2, &b, i));
-        if g1 != g2 {
-            let nl = |g: &[u8]| g.iter().filter(|c| **c == b'\n').count();
-            let d = |j: isize| -> String { if j < 0 { "START".into() } else if j as usize >= a.len() { "END".into() } else { describe(a[j as usize].0, &p1[a[j as usize].1.clone()]) } };
-            let is_comment = |j: isize| j >= 0 && (j as usize) < a.len() && a[j as usize].0 == SyntaxKind::COMMENT;
-            let change = if nl(&g1) < nl(&g2) { "line-break-added" } else if nl(&g1) > nl(&g2) { "line-break-removed" } else { "spaces-changed" };
-            if is_comment(i as isize - 1) { return format!("whitespace-next-to-comment:{}-after-comment", change); }
-            if is_comment(i as isize) { return format!("whitespace-next-to-comment:{}-before-comment", change); }
-            if first_other.is_none() {
-                first_other = Some(if i == a.len() { format!("{}-at-end-of-file", change) }
-                    else { format!("other:after[{} {}] {} before[{}]", d(i as isize - 2), d(i as isize - 1), change, d(i as isize)) });
-            }
+    let n = a.len();
+    let nl = |g: &[u8]| g.iter().filter(|c| **c == b'\n').count();
+    let is_comment = |j: isize| j >= 0 && (j as usize) < n && a[j as usize].0 == SyntaxKind::COMMENT;
+    let coarse = |j: isize| -> String {
+        if j < 0 { return "START".into(); } if j as usize >= n { return "END".into(); }
+        let (k, r) = &a[j as usize]; let t = &p1[r.clone()];
+        match k {
+            SyntaxKind::COMMENT => "COMMENT".into(),
+            SyntaxKind::IDENT => "IDENT".into(),
+            SyntaxKind::PATTERN_IDENT | SyntaxKind::PATTERN_COUNT | SyntaxKind::PATTERN_OFFSET | SyntaxKind::PATTERN_LENGTH => "PATTERN".into(),
+            _ => { let s = String::from_utf8_lossy(t).to_string();
+                   if s.len() <= 2 && s.chars().all(|c| c.is_ascii_punctuation()) && !s.contains('"') && !s.contains('/') { s }
+                   else if s.len() <= 12 && s.chars().all(|c| c.is_ascii_lowercase()) { "KEYWORD".into() } else { "LITERAL".into() } }
         }
-        if i < a.len() && p1[a[i].1.clone()] != p2[b[i].1.clone()] {
-            return if a[i].0 == SyntaxKind::COMMENT { "comment-continuation-lines-reindented".into() }
-                   else { format!("token-text-changes[{}]", describe(a[i].0, &p1[a[i].1.clone()])) };
+    };
+    // syntax-error nodes of the first output
+    let error_spans: Vec<std::ops::Range<usize>> = CSTStream::from(Parser::new(p1)).filter_map(|e| match e {
+        Event::Begin { kind: SyntaxKind::ERROR, span } => Some(span.range()), _ => None }).collect();
+    let touches_error = |i: usize| -> bool {
+        let start = if i == 0 { 0 } else { a[i - 1].1.end };
+        let end = if i == n { p1.len() } else { a[i].1.start };
+        error_spans.iter().any(|e| e.start <= end && start <= e.end)
+    };
+    let change_of = |g1: &[u8], g2: &[u8]| -> &'static str {
+        if nl(g1) < nl(g2) { "line-break-added" } else if nl(g1) > nl(g2) { "line-break-removed" }
+        else if g2.len() > g1.len() { "spaces-added" } else if g2.len() < g1.len() { "spaces-removed" } else { "spaces-replaced" } };
+    let comment_kind = |j: usize| -> &'static str { if p1[a[j].1.clone()].starts_with(b"/*") { "block" } else { "line" } };
+    let line_position = |j: usize| -> String {
+        let before = gap_of(p1, &a, j); let after = gap_of(p1, &a, j + 1);
+        let first = j == 0 || nl(&before) > 0;
+        let follow = if j + 1 >= n || nl(&after) > 0 { "last-on-line" } else if is_comment(j as isize + 1) { "followed-by-comment" } else { "followed-by-code" };
+        format!("{}+{}", if first { "first-on-line" } else { "after-code" }, follow) };
+    let mut first_other: Option<String> = None;
+    let mut first_error: Option<String> = None;
+    for i in 0..=n {
+        let (g1, g2) = (gap_of(p1, &a, i), gap_of(p2, &b, i));
+        if g1 != g2 {
+            let change = change_of(&g1, &g2);
+            if is_comment(i as isize - 1) || is_comment(i as isize) {
+                let (side, cj, other) = if is_comment(i as isize - 1) { ("after", i - 1, coarse(i as isize)) } else { ("before", i, coarse(i as isize - 1)) };
+                let other = match other.as_str() { "COMMENT" | "START" | "END" => other, _ => "CODE".to_string() };
+                let mut fp = format!("next-to-comment:{}-{}-{}-comment:{}:other-side-{}", change, side, comment_kind(cj), line_position(cj), other);
+                if change.starts_with("spaces-") {
+                    // alignment of comments: are tabs involved, and is there another comment earlier on the comment's line
+                    let tabs = g1.contains(&b'\t') || g2.contains(&b'\t');
+                    let mut earlier = false; let mut j = cj;
+                    while j > 0 && nl(&gap_of(p1, &a, j)) == 0 { j -= 1; if is_comment(j as isize) { earlier = true; break; } }
+                    fp.push_str(&format!(":{}:{}", if tabs { "tabs-in-the-gap" } else { "no-tabs-in-the-gap" }, if earlier { "another-comment-earlier-on-the-line" } else { "only-comment-on-the-line" }));
+                }
+                return fp;
+            }
+            if touches_error(i) { if first_error.is_none() { first_error = Some("next-to-the-text-of-a-syntax-error".to_string()); } }
+            else if first_other.is_none() { first_other = Some(format!("other:{}:after[{}]-before[{}]", change, coarse(i as isize - 1), coarse(i as isize))); }
+        }
+        if i < n && p1[a[i].1.clone()] != p2[b[i].1.clone()] {
+            if a[i].0 == SyntaxKind::COMMENT {
+                let (t1, t2) = (&p1[a[i].1.clone()], &p2[b[i].1.clone()]);
+                let l1: Vec<&[u8]> = t1.split(|c| *c == b'\n').collect(); let l2: Vec<&[u8]> = t2.split(|c| *c == b'\n').collect();
+                let k = l1.iter().zip(l2.iter()).position(|(x, y)| x != y).unwrap_or(0);
+                let blank = |l: &[u8]| l.iter().all(|c| *c == b' ' || *c == b'\t' || *c == b'\r');
+                return if k < l1.len() && k < l2.len() && blank(l1[k]) && blank(l2[k]) { "comment-text:blank-line-inside-comment-changes".into() }
+                       else { format!("comment-text:continuation-lines-reindented:{}", line_position(i)) };
+            }
+            return format!("token-text-changes[{}]", coarse(i as isize));
         }
     }
+    if let Some(e) = first_error { return e; }
     if let Some(o) = first_other { return o; }
     "no-difference-found".into()
 }
 
-/// Fingerprint of an idempotence failure on a syntactically valid source.
+/// The recorded input classes of idempotence failures around comments: a
+/// detailed description (see [diff_fingerprint]) is mapped to the class it
+/// belongs to; a description that belongs to none is kept in full, so that it
+/// is reported as something new.
+pub fn idempotence_family(fp: &str) -> Option<&'static str> {
+    if fp.starts_with("comment-text:blank-line") { return Some("comment-text:blank-line-inside-comment-changes"); }
+    if fp.starts_with("comment-text:continuation-lines-reindented") { return Some("comment-text:continuation-lines-of-a-comment-after-code-reindented").filter(|_| fp.contains(":after-code+")); }
+    let p: Vec<&str> = fp.split(':').collect();
+    if p.len() < 4 || p[0] != "next-to-comment" { return None; }
+    let (what, pos, other) = (p[1], p[2], p[3]);
+    let (change, side, kind) = if let Some((c, k)) = what.split_once("-after-") { (c, "after", k) } else if let Some((c, k)) = what.split_once("-before-") { (c, "before", k) } else { return None; };
+    let block = kind.starts_with("block");
+    let spaces = change.starts_with("spaces-");
+    let tabs = p.get(4) == Some(&"tabs-in-the-gap");
+    let earlier = p.get(5) == Some(&"another-comment-earlier-on-the-line");
+    match (change, side) {
+        ("line-break-added", "after") if other == "other-side-END" => Some("next-to-comment:line-break-added-after-the-last-comment-of-the-file"),
+        ("line-break-added", "after") if block && (pos == "first-on-line+followed-by-code" || pos == "first-on-line+followed-by-comment") =>
+            Some("next-to-comment:line-break-added-after-a-block-comment-that-is-first-on-its-line-and-followed-on-it"),
+        ("line-break-added", "after") if !block && pos == "first-on-line+last-on-line" && other == "other-side-CODE" => Some("next-to-comment:empty-line-added-after-a-line-comment-on-its-own-line"),
+        ("line-break-added", "before") if pos == "first-on-line+last-on-line" && other == "other-side-CODE" => Some("next-to-comment:empty-line-added-before-a-comment-on-its-own-line"),
+        ("line-break-removed", "after") if pos == "after-code+last-on-line" => Some("next-to-comment:empty-line-removed-after-a-tail-comment"),
+        (_, "before") if spaces && pos == "after-code+last-on-line" && other == "other-side-CODE" => Some("next-to-comment:spaces-before-a-tail-comment-change"),
+        (_, "before") if spaces && pos == "first-on-line+last-on-line" && other == "other-side-CODE" => Some("next-to-comment:indentation-of-a-comment-on-its-own-line-changes"),
+        (_, "after") if spaces && pos == "first-on-line+last-on-line" => Some("next-to-comment:indentation-of-the-line-after-a-comment-on-its-own-line-changes"),
+        (_, "after") if spaces && block && pos == "after-code+followed-by-comment" && other == "other-side-COMMENT" => Some("next-to-comment:space-between-two-comments-on-a-line-changes"),
+        (_, "after") if spaces && pos == "after-code+last-on-line" && other == "other-side-CODE" => Some("next-to-comment:indentation-of-the-code-line-after-a-tail-comment-changes"),
+        // a comment line that follows a tail comment: recorded are (1) it loses its alignment when the
+        // tail comment's line holds another comment and no tabs are involved, (2) it gains alignment
+        (_, "after") if spaces && pos == "after-code+last-on-line" && other == "other-side-COMMENT" => {
+            if change == "spaces-removed" && !tabs && earlier { Some("next-to-comment:comment-line-after-a-tail-comment-loses-alignment:line-with-several-comments-no-tabs") }
+            else if change == "spaces-added" { Some("next-to-comment:comment-line-after-a-tail-comment-gets-aligned-with-it") }
+            else { None }
+        }
+        _ => None,
+    }
+}
+
+/// Fingerprint of an idempotence failure.
 /// The defect of DESIGN.md section 7 #15 -- a `/* */` comment between
 /// `condition:` and the first term of the condition -- is recognised by
 /// removing exactly those comments and observing that the failure disappears;
-/// every other failure is described by [diff_fingerprint].
+/// every other failure is described by [diff_fingerprint]; when the change is
+/// neither next to a comment nor next to a syntax error but disappears when
+/// every comment is replaced by a space, that is said too.
 pub fn classify_idempotence(src: &[u8], o: &Opts) -> String {
+    let valid = if has_syntax_errors(src) { "invalid-source" } else { "valid-source" };
     let mut prev2: Option<Vec<u8>> = None; let mut prev1: Option<Vec<u8>> = None;
     let mut cuts: Vec<std::ops::Range<usize>> = vec![];
     for (kind, span) in sig_spans(src) {
@@ -577,7 +670,7 @@ pub fn classify_idempotence(src: &[u8], o: &Opts) -> String {
             if text.starts_with(b"/*") && prev1.as_deref() == Some(b":") && prev2.as_deref() == Some(b"condition") { cuts.push(span); }
         } else { prev2 = prev1.take(); prev1 = Some(text.to_vec()); }
     }
-    if !cuts.is_empty() {
+    if !cuts.is_empty() && valid == "valid-source" {
         let mut cand = vec![]; let mut at = 0;
         for c in &cuts { cand.extend_from_slice(&src[at..c.start]); cand.push(b' '); at = c.end; }
         cand.extend_from_slice(&src[at..]);
@@ -585,18 +678,22 @@ pub fn classify_idempotence(src: &[u8], o: &Opts) -> String {
     }
     let ob = observe_with(src, o, false);
     let fp = diff_fingerprint(&ob.out1_text, &ob.out2_text);
-    if !fp.starts_with("whitespace-next-to-comment") && !fp.starts_with("comment-continuation") {
-        // the change is not next to a comment: is it nevertheless caused by one? (does the
-        // failure disappear when every comment is replaced by a space?)
+    // the mechanisms around comments are the same in sources with and without syntax errors
+    if fp.starts_with("next-to-comment:") || fp.starts_with("comment-text:") {
+        return match idempotence_family(&fp) { Some(f) => format!("idempotence:{}", f), None => format!("idempotence:{}", fp) };
+    }
+    if fp.starts_with("other:") {
         let spans: Vec<std::ops::Range<usize>> = sig_spans(src).into_iter().filter(|(k, _)| *k == SyntaxKind::COMMENT).map(|(_, r)| r).collect();
         if !spans.is_empty() {
             let mut cand = vec![]; let mut at = 0;
             for c in &spans { cand.extend_from_slice(&src[at..c.start]); cand.push(b' '); at = c.end; }
             cand.extend_from_slice(&src[at..]);
-            if !has_syntax_errors(&cand) && !fails(&cand, o, "idempotence") { return "idempotence:valid-source:comment-elsewhere-changes-layout".into(); }
+            if has_syntax_errors(&cand) == (valid == "invalid-source") && !fails(&cand, o, "idempotence") {
+                return format!("idempotence:{}:caused-by-a-comment-elsewhere:{}", valid, &fp["other:".len()..]);
+            }
         }
     }
-    format!("idempotence:valid-source:{}", fp)
+    format!("idempotence:{}:{}", valid, fp)
 }
 
 // ------------------------------------------------------------------ Coq printers
@@ -726,6 +823,48 @@ fn gen_rule(rng: &mut Rng, pool: &[VTok], kinds: &[SyntaxKind]) -> (VCond, VActi
     (c, a)
 }
 
+/// A valid source whose lines carry tail comments that are continued on the
+/// following lines by comments starting in the same column (tabs count `tab`
+/// columns), in the meta, strings and condition sections.
+fn aligned_comment_source(rng: &mut Rng, tab: usize) -> String {
+    let width = |s: &str| -> usize { s.chars().map(|c| if c == '\t' { tab } else { 1 }).sum() };
+    let ws = |rng: &mut Rng, col: usize| -> String {
+        let max_tabs = if tab == 0 { 2 } else { col / tab };
+        let tabs = if max_tabs == 0 { 0 } else { rng.below(max_tabs as u64 + 1) as usize };
+        let spaces = col.saturating_sub(tabs * tab);
+        if rng.chance(1, 4) { format!("{}{}", " ".repeat(spaces), "\t".repeat(tabs)) } else { format!("{}{}", "\t".repeat(tabs), " ".repeat(spaces)) }
+    };
+    let mut out = String::new();
+    let line = |rng: &mut Rng, out: &mut String, indent: &str, code: &str| {
+        out.push_str(indent); out.push_str(code);
+        if rng.chance(2, 3) {
+            let gap = *rng.pick(&["  ", " ", "\t", "    "]);
+            out.push_str(gap);
+            let col = width(indent) + width(code) + width(gap);
+            out.push_str(*rng.pick(&["// a", "// first", "/* a */"]));
+            for _ in 0..(1 + rng.below(2)) {
+                out.push('\n');
+                let c = match rng.below(6) { 0 => col + 1, 1 => col.saturating_sub(1), _ => col };
+                out.push_str(&ws(rng, c));
+                out.push_str(*rng.pick(&["// b", "// continued", "// c"]));
+            }
+        }
+        out.push('\n');
+    };
+    let ind1 = *rng.pick(&["\t", "  ", "    ", ""]);
+    let ind2 = *rng.pick(&["\t\t", "    ", "\t  ", "      "]);
+    out.push_str("rule aligned {\n");
+    if rng.chance(1, 2) { line(rng, &mut out, ind1, "meta:"); line(rng, &mut out, ind2, "author = \"x\""); line(rng, &mut out, ind2, "n = 1"); }
+    if rng.chance(2, 3) { line(rng, &mut out, ind1, "strings:"); line(rng, &mut out, ind2, "$a = \"abc\""); line(rng, &mut out, ind2, "$b = { 01 02 03 }"); }
+    else { line(rng, &mut out, ind1, "strings:"); line(rng, &mut out, ind2, "$a = \"abc\""); line(rng, &mut out, ind2, "$b = /x+/"); }
+    line(rng, &mut out, ind1, "condition:");
+    line(rng, &mut out, ind2, "$a and");
+    line(rng, &mut out, ind2, "(true or");
+    line(rng, &mut out, ind2, " $b)");
+    out.push_str("}\n");
+    out
+}
+
 /// Whitespace tokens (tabs and spaces, in some order) whose width is `col`
 /// when a tab counts `tab` columns.
 fn ws_of_width(rng: &mut Rng, col: usize, tab: usize) -> Vec<VTok> {
@@ -849,6 +988,13 @@ pub fn run(args: &[String]) -> i32 {
     while n_cases < n_fmt {
         let (src_bytes, opt_list, kind): (Vec<u8>, Vec<Opts>, &str) = if let Some((s, o)) = pending.pop() {
             (s.into_bytes(), vec![o], "corpus")
+        } else if rng.chance(1, 14) {
+            // tail comments continued by aligned comment lines, tab/space indentation; formatted with
+            // the tab size the alignment was made for, mostly with Indentation::Tabs
+            let mut o = ca[ca_next % ca.len()]; ca_next += 1;
+            o.tab = *rng.pick(&TABS);
+            if rng.chance(2, 3) { o.indent = 0; }
+            (aligned_comment_source(&mut rng, o.tab as usize).into_bytes(), vec![o], "aligned-comments")
         } else {
             let mut lex = gen_lexemes(&mut rng);
             let style = if rng.chance(1, 12) { 5 } else { rng.below(5) };
@@ -974,6 +1120,65 @@ pub fn run(args: &[String]) -> i32 {
         }
         n_k += 1;
     }
+    // ---------------- the real `yr fmt` on temporary files against the model of cli/src/commands/fmt.rs
+    if let Some(yr) = arg_val(args, "--yr") {
+        let n_yr = arg_u64(args, "--n-yr", 30) as usize;
+        let dir = Path::new(&out).join("yr_fmt_tmp");
+        for inv in 0..n_yr {
+            let _ = std::fs::remove_dir_all(&dir); std::fs::create_dir_all(&dir).unwrap();
+            let mut o = ca[(inv * 7 + 3) % ca.len()];
+            if o.indent == 1 { o.indent = 3; }            // Spaces(0) cannot be written in the configuration file
+            let check = rng.chance(1, 4);
+            let nfiles = 1 + rng.below(3) as usize;
+            let mut files: Vec<(std::path::PathBuf, Vec<u8>)> = vec![];
+            for k in 0..nfiles {
+                let mut lex = gen_lexemes(&mut rng);
+                if rng.chance(1, 10) { mutate(&mut rng, &mut lex); }
+                let mut text = match rng.below(6) {
+                    // already formatted: must not be rewritten
+                    0 => { let t = render(&mut rng, &lex, 0).into_bytes(); let (oc, f) = run_format(&t, &o); if let Outcome::Ok(_) = oc { let (oc2, f2) = run_format(&f, &o); if let Outcome::Ok(_) = oc2 { f2 } else { f } } else { t } }
+                    // output much shorter than the input: deep indentation, trailing spaces, blank lines
+                    1 | 2 => { let t = render(&mut rng, &lex, 1); t.replace('\n', "   \n\n\n            ").into_bytes() }
+                    // output longer than the input
+                    3 => render(&mut rng, &lex, 3).into_bytes(),
+                    4 => aligned_comment_source(&mut rng, o.tab as usize).into_bytes(),
+                    _ => { let st = rng.below(5); render(&mut rng, &lex, st).into_bytes() }
+                };
+                if rng.chance(1, 25) && !text.is_empty() { let i = rng.below(text.len() as u64) as usize; text.insert(i, 0xFF); }
+                let p = dir.join(format!("f{}.{}", k, if rng.chance(1, 3) { "yara" } else { "yar" }));
+                std::fs::write(&p, &text).unwrap();
+                let _ = std::fs::File::options().write(true).open(&p).and_then(|f| f.set_modified(std::time::UNIX_EPOCH + Duration::from_secs(1_000_000_000)));
+                files.push((p, text));
+            }
+            let cfg = dir.join("cfg.toml");
+            std::fs::write(&cfg, format!("[fmt.rule]\nindent_section_headers = {}\nindent_section_contents = {}\nindent_spaces = {}\nnewline_before_curly_brace = {}\nempty_line_before_section_header = {}\nempty_line_after_section_header = {}\n[fmt.meta]\nalign_values = {}\n[fmt.patterns]\nalign_values = {}\n",
+                o.b[2], o.b[3], if o.indent == 0 { 0 } else { o.indent - 1 }, o.b[4], o.b[5], o.b[6], o.b[0], o.b[1])).unwrap();
+            let mut cmd = std::process::Command::new(&yr);
+            cmd.arg("--config").arg(&cfg).arg("fmt").arg("-t").arg(o.tab.to_string());
+            if check { cmd.arg("--check"); }
+            for (p, _) in &files { cmd.arg(p); }
+            let status = match cmd.env("RUST_BACKTRACE", "0").stdout(std::process::Stdio::null()).stderr(std::process::Stdio::null()).status() { Ok(s) => s, Err(e) => { eprintln!("c15: cannot run {yr}: {e}"); break; } };
+            let exit = status.code().unwrap_or(255) as u64;
+            let mut coq_files = vec![]; let mut rj = vec![];
+            let (mut shorter, mut longer, mut same) = (0, 0, 0);
+            for (p, text) in &files {
+                let (oc, lib_out) = run_format(text, &o);
+                let after = std::fs::read(p).unwrap_or_default();
+                let rewritten = std::fs::metadata(p).and_then(|m| m.modified()).map(|t| t != std::time::UNIX_EPOCH + Duration::from_secs(1_000_000_000)).unwrap_or(true);
+                if let Outcome::Ok(m) = &oc { if !*m { same += 1 } else if lib_out.len() < text.len() { shorter += 1 } else { longer += 1 } }
+                coq_files.push(format!("mkYrFile {} {} {} {} {}", coq_bytes(text), fmt_outcome_coq(&oc), coq_bytes(&lib_out), coq_bytes(&after), coq_bool(rewritten)));
+                rj.push(format!("{{\"input\":{},\"library\":{},\"library_output\":{},\"file_after\":{},\"rewritten\":{}}}", json_str(&String::from_utf8_lossy(text)), json_str(&format!("{:?}", oc)),
+                    json_str(&String::from_utf8_lossy(&lib_out)), json_str(&String::from_utf8_lossy(&after)), rewritten));
+            }
+            stats.inc("k_yr_fmt_invocations"); if check { stats.inc("k_yr_fmt_check_mode"); }
+            stats.add("k_yr_fmt_files_output_shorter", shorter); stats.add("k_yr_fmt_files_output_longer_or_equal_length", longer); stats.add("k_yr_fmt_files_unmodified", same);
+            if exit != 0 { stats.inc("k_yr_fmt_exit_nonzero"); }
+            shards.push(format!("CYr {} [{}] {}", coq_bool(check), coq_files.join("; "), exit),
+                format!("{{\"kind\":\"yr-fmt\",\"class\":\"yr-fmt:file-after-differs-from-formatter-output\",\"check_mode\":{},\"options\":{},\"exit\":{},\"files\":[{}]}}", check, o.json(), exit, rj.join(",")));
+        }
+        let _ = std::fs::remove_dir_all(&dir);
+    }
+
     // ---------------- the five hand-written stages (hook) against Fmt/Stages.v
     let n_stage = arg_u64(args, "--n-stage", (n_proc as u64) / 2) as usize;
     let mut n_s = 0usize;
